@@ -11,20 +11,23 @@ exec.DisplayError(exec.WrapSyntaxError(parser, "主模块", err)).
      an accepted tree is complete (walker over the dumped tree).
 Streams: trunc (EVERY prefix of corpus programs), corrupt (token deletion/duplication/swap, splices, noise, indentation and
 line-break damage, on canonical and re-laid-out renderings), unicode (random code points incl. controls, surrogates, quotes,
-brackets, back-ticks, keywords), indent (mixed TAB/space indentation, lone CR), errline (the printer alone, any cursor)."""
+brackets, back-ticks, keywords), indent (mixed TAB/space indentation, lone CR), errline (the printer alone, any cursor),
+varinput / exprin (props/varinput.py: the text of input variables is program text — the same texts to the compiler and to
+ExecVarInputText / Interpreter.ExecuteVarInputText / ExecExpressionInputText; oracle Spec/VarInput.lean)."""
 import znlayout
 from zngen import cps
 from props import parsecommon as pc
 from props import errline
+from props import varinput
 
 RULE = ("trunc: every prefix (each offset 0..len) of corpus programs from the six generators; corrupt: 10–16 damaged variants per program "
         "(token deletion, duplication, swap, random splices, insertion/replacement from a pool of controls, zero-width and astral characters, lone "
         "surrogates, every quote/bracket/back-tick/punctuation/operator, comment openers, line-break sequences, every keyword; indentation of "
         "one line changed; line breaks inserted) of canonical and randomly re-laid-out renderings; unicode: strings of 1–40 items of that pool "
         "mixed with identifiers and numbers; indent: programs whose lines get random TAB/space/mixed indentation and CR/LF/CRLF/LFCR/CR-CR "
-        "breaks; " + errline.RULE_ERRLINE + ". Non-trivial = the input is not accepted (an error path ran) or has ≥ 3 lines.")
+        "breaks; " + varinput.RULE_VARINPUT + "; " + errline.RULE_ERRLINE + ". Non-trivial = the input is not accepted (an error path ran) or has ≥ 3 lines.")
 ASSUMPTIONS = ["'promptly' is the harness watchdog's 2 s (a `timeout` answer is re-run alone twice before it counts: the machine may be busy)",
-               "lone surrogates print as U+FFFD (Go's string conversion); the quoted-line check compares modulo that substitution"] + errline.ASSUMPTIONS_ERRLINE
+               "lone surrogates print as U+FFFD (Go's string conversion); the quoted-line check compares modulo that substitution"] + varinput.ASSUMPTIONS_VARINPUT + errline.ASSUMPTIONS_ERRLINE
 PARTIAL = ("termination, cursor bound, absence of panics and completeness are proved for the parser over ANY lexer meeting LexOK (Proofs/ParserHoare); "
            "that Model/Lexer meets LexOK is the lexer worker's obligation (lex_total / its cursor bound) — here it is exercised by the end-to-end runs; "
            "'promptly' itself is a run-time notion")
@@ -205,12 +208,19 @@ def run(ctx):
         if a.count('\n') > b.count('\n') > 1:
             ctx.nontriv(b)
     ctx.streams.append({'stream': 'after-another-program', 'cases': len(pairs)})
+    # input-variable text: the same texts to the compiler and to ExecVarInputText / ExecuteVarInputText / ExecExpressionInputText
+    varinput.stream(ctx, check, ctx.n(100, 3000))
     # the printer alone, any cursor
     errline.stream(ctx, ctx.n(4000, 200000))
 
 
 def replay(ctx, data):
     case = data['case']
+    if case.split(' ')[0] in ('varinput', 'exprin'):
+        varinput.replay(ctx, case)
+        if data.get('spec'):
+            print('expected:', data['spec'][:3000])
+        return
     print('go   :', ctx.run_go([case], timeout_ms=2000)[0][:3000])
     f = case.split(' ')
     if f[0] == 'compile':
